@@ -29,7 +29,7 @@ def main():
                 os.makedirs(os.path.dirname(dst), exist_ok=True)
                 shutil.copy(os.path.join(root, f), dst); demos.append(dst)
         seedroot = os.path.dirname(os.path.dirname(os.path.abspath(src)))
-        cmd = meta["demo_cmd"].replace("$PWD", wt).replace(seedroot, wt).replace("<worktree>", wt)
+        cmd = meta["demo_cmd"].replace("$PWD", wt).replace(seedroot, wt).replace("<worktree>", wt).replace("<repo>", wt)
         rc0, o0 = sh(cmd, cwd=wt)
         out["demo_without_patch"] = "pass" if rc0 == 0 else "FAIL"
         if rc0 != 0:
